@@ -13,6 +13,7 @@ CONSTANTS
   Enforce = %s
   Deviations = %s
   MaxHist = 0
+  Protos <- %s
 INVARIANTS NoBad EmitOffer
 CHECK_DEADLOCK FALSE
 """
@@ -67,12 +68,13 @@ def run_case(args):
 
 def run(ctx):
     rng = random.Random(ctx.seed)
-    r = tlc.model_check("Tacd", MC_CFG % (tlc.tla_set(LABELS), "{}"), "C16_mc", workers=2, timeout=600, required_actions=["AlpnNext"])
+    r = tlc.model_check("Tacd", MC_CFG % (tlc.tla_set(LABELS), "{}", "ProtosFull" if ctx.tier == "thorough" else "ProtosQuick"), "C16_mc", workers=2, timeout=600, required_actions=["AlpnNext"])
     if r["violated"]:
         raise ToolError("Tacd: ALPN model inconsistent (%s)" % r["out_path"])
-    rd = tlc.model_check("Tacd", MC_CFG % (tlc.tla_set(LABELS), '{"AlpnAcceptsAnything"}'), "C16_dev", workers=2, timeout=600)
-    if not rd["violated"]:
-        raise ToolError("Tacd model sanity: an ALPN callback accepting anything is not caught")
+    for dev in ("AlpnAcceptsAnything", "AlpnPrefixMatch"):
+        rd = tlc.model_check("Tacd", MC_CFG % (tlc.tla_set(LABELS), '{"%s"}' % dev, "ProtosQuick"), "C16_dev", workers=2, timeout=600)
+        if not rd["violated"]:
+            raise ToolError("Tacd model sanity: deviation %s of the ALPN callback is not caught" % dev)
     offers = []
     for o in tlc.replays(r["raw"]):
         if o not in offers:
@@ -121,7 +123,7 @@ def run(ctx):
            "alpn_shapes_from_model": len(offers), "handshakes_judged": len(hs), "completed": sum(1 for e in hs if e["res"]["completed"]),
            "refused": sum(1 for e in hs if not e["res"]["completed"]), "key_type_digest_combinations": len(combos), "domains": len(doms),
            "exhaustive": False,
-           "rule": "TLC enumerates every ALPN list over {acme-tls/1, h2, http/1.1} up to length 3 plus 'no extension' and checks the case split of the acceptor's callback; "
+           "rule": "TLC enumerates every ALPN list over {acme-tls/1, h2, http/1.1, acme-tls/10, acme-tls/ (thorough: + acme-tls/1.1, ACME-TLS/1)} up to length 3 plus 'no extension' and checks the case split of the acceptor's callback; "
                    "each shape is offered to real tacd instances (tcp and unix listeners; domain/extension by flag, file and standard input); key types x digests; "
                    "random domains of 1..5 labels (ASCII, IDN given as U-label/A-label, mixed case) whose canonical A-label form is known by construction; random digests "
                    "rendered in acmed's proof text; the negotiated protocol and the DER of the presented certificate are parsed by the harness and judged by Tacd.tla"}
